@@ -348,7 +348,8 @@ def mutate(el, rnd):
     el = copy.deepcopy(el)
     nodes = list(el.iter())
     kind = rnd.choice(['del-el', 'dup-el', 'swap', 'rename-el', 'del-attr', 'rename-attr', 'bad-attr', 'add-attr',
-                       'inject-text', 'inject-tail', 'bad-text', 'foreign-el', 'nest-in-leaf', 'nest-in-leaf', 'move-el'])
+                       'inject-text', 'inject-tail', 'bad-text', 'foreign-el', 'nest-in-leaf', 'nest-in-leaf', 'move-el',
+                       'shuffle-children', 'shuffle-children'])
     parents = [n for n in nodes if len(n)]
     if kind in ('del-el', 'dup-el', 'swap', 'rename-el', 'inject-tail', 'foreign-el') and parents:
         p = rnd.choice(parents)
@@ -400,6 +401,15 @@ def mutate(el, rnd):
             child.text = rnd.choice(['1', 'eighth', 'inner', None])
         child.tail = None
         n.append(child)
+    elif kind == 'shuffle-children' and parents:
+        # all children of one element in another order (out-of-order input makes the library search for another arrangement)
+        big = [p for p in parents if len(p) >= 3] or parents
+        p = rnd.choice(big)
+        kids = list(p)
+        rnd.shuffle(kids)
+        for k in list(p):
+            p.remove(k)
+        p.extend(kids)
     elif kind == 'move-el' and len(parents) > 1:
         p = rnd.choice(parents)
         q = rnd.choice(nodes)
